@@ -36,11 +36,11 @@ ANCHORS = ['debian.arfile:ArFile.__collect_members', 'debian.arfile:ArMember.fro
            'debian.arfile:ArMember.tell', 'debian.arfile:ArFile.getmember']
 MUST_REACH = ANCHORS
 FLOORS = {'quick': {'nontrivial': 800, 'monitors': {'M.op': 30000, 'K9': 10000, 'M.listing': 1000, 'M.listing-again': 1000},
-                    'counters': {'readline-size-zero-or-negative': 1200, 'sibling-members-dropped-before-reads': 700, 'fileobj-kind:tempfile': 450, 'fileobj-kind:rawio': 450, 'fileobj-kind:fdopen': 450, 'fileobj-kind:unlinked': 450, 'fileobj-kind:replaced': 450,
+                    'counters': {'lookup-mid-history': 900, 'readline-size-zero-or-negative': 1200, 'sibling-members-dropped-before-reads': 700, 'fileobj-kind:tempfile': 450, 'fileobj-kind:rawio': 450, 'fileobj-kind:fdopen': 450, 'fileobj-kind:unlinked': 450, 'fileobj-kind:replaced': 450,
                                  'archive-object-dropped-before-reads': 2400, 'filename:members-dropped-unclosed': 1300,
                                  'filename:path_reuse': 1300, 'filename:twin': 650, 'op-through-twin': 4000}},
           'thorough': {'nontrivial': 40000, 'monitors': {'M.op': 1500000, 'K9': 500000, 'M.listing': 50000, 'M.listing-again': 50000},
-                       'counters': {'readline-size-zero-or-negative': 120000, 'sibling-members-dropped-before-reads': 70000, 'fileobj-kind:tempfile': 45000, 'fileobj-kind:rawio': 45000, 'fileobj-kind:fdopen': 45000, 'fileobj-kind:unlinked': 45000, 'fileobj-kind:replaced': 45000,
+                       'counters': {'lookup-mid-history': 90000, 'readline-size-zero-or-negative': 120000, 'sibling-members-dropped-before-reads': 70000, 'fileobj-kind:tempfile': 45000, 'fileobj-kind:rawio': 45000, 'fileobj-kind:fdopen': 45000, 'fileobj-kind:unlinked': 45000, 'fileobj-kind:replaced': 45000,
                                     'archive-object-dropped-before-reads': 120000, 'filename:members-dropped-unclosed': 65000,
                                     'filename:path_reuse': 65000, 'filename:twin': 32000, 'op-through-twin': 200000}}}
 LEVEL_TEXT = ('Runtime monitoring: seeded interleaved operation histories on live ArMember objects, each result compared with an '
@@ -122,6 +122,8 @@ def gen_ops(r, members, n):
             ops.append([i, 'seek_back', r.randint(1, 5)])       # seek(-min(d, tell()), 1): target stays >= 0
         elif k < .91:
             ops.append([i, 'seek', -r.randint(0, size), 2])
+        elif k < .925:
+            ops.append([i, 'lookup', r.choice(['getmember', 'getitem', 'getmembers', 'iter', 'getnames'])])   # listing / look-up mid-history
         elif k < .94:
             ops.append([i, 'disturb', r.randint(0, 400)])      # someone else moves the SHARED file object
         else:
@@ -417,6 +419,28 @@ def _history(ctx, case, holder, members, ops, raw, tf):
             d = min(op[2], sh.tell())
             m.seek(-d, 1)
             sh.seek(-d, 1)
+            got = want = None
+        elif kind == 'lookup':
+            # looking a member up again, or listing the archive, is no operation ON a member: no position moves
+            a0 = holder['ars'][0] if holder.get('ars') else None
+            if a0 is not None and not twin:
+                ctx.count('lookup-mid-history')
+                nm_ = members[i % nm]['name']
+                if op[2] == 'getmember':
+                    a0.getmember(shown(nm_))
+                elif op[2] == 'getitem':
+                    a0[shown(nm_)]
+                elif op[2] == 'getmembers':
+                    a0.getmembers()
+                elif op[2] == 'iter':
+                    list(a0)
+                else:
+                    a0.getnames()
+                for j, (mm, ss) in enumerate(zip(live, shadows)):
+                    if mm is not None and mm.tell() != ss.tell():
+                        ctx.violation('position-moved-by-listing-or-lookup', 'step %d %r: member %d tell()=%d, model %d'
+                                      % (step, op, j, mm.tell(), ss.tell()))
+                        return
             got = want = None
         elif kind == 'disturb':
             if tf is not None:
